@@ -49,6 +49,9 @@ func init() {
 	})
 }
 
+// an event ID cited as auth event by the format probes (43 URL-safe characters: acceptable in every version)
+const citedAuthID = "$BBBBBBBBBBBBBBBBBBBBBBBBBBBBBBBBBBBBBBBBBBB"
+
 const (
 	creator = "@creator:hs1"
 	alice   = "@alice:hs1"
@@ -262,7 +265,7 @@ func runProbe(ver string, v gmsl.IRoomVersion, probe string) (string, string) {
 		for nonce := 0; nonce < 200; nonce++ {
 			ev, err := build(v, evFields{Type: "m.room.message", Sender: creator, RoomID: r.id,
 				Content: map[string]interface{}{"body": "hello", "nonce": nonce},
-				Prev:    []string{r.create.EventID()}, Auth: []string{}, Depth: 2})
+				Prev:    []string{r.create.EventID()}, Auth: []string{citedAuthID}, Depth: 2})
 			if err != nil {
 				return "setup-error", short(err)
 			}
@@ -272,24 +275,40 @@ func runProbe(ver string, v gmsl.IRoomVersion, probe string) (string, string) {
 			}
 			switch probe {
 			case "build_refs":
-				var prev []json.RawMessage
-				if err := json.Unmarshal(top["prev_events"], &prev); err != nil || len(prev) != 1 {
-					return "other", string(top["prev_events"])
+				// both reference lists must have the shape of the version's event format
+				shapes := map[string]bool{}
+				for key, wantID := range map[string]string{"prev_events": r.create.EventID(), "auth_events": citedAuthID} {
+					var list []json.RawMessage
+					if err := json.Unmarshal(top[key], &list); err != nil || len(list) != 1 {
+						return "other", key + "=" + string(top[key])
+					}
+					var id string
+					var tuple []json.RawMessage
+					switch {
+					case json.Unmarshal(list[0], &id) == nil && id == wantID:
+						shapes["ids"] = true
+					case json.Unmarshal(list[0], &tuple) == nil && len(tuple) == 2 && json.Unmarshal(tuple[0], &id) == nil && id == wantID:
+						shapes["tuples"] = true
+					default:
+						return "other", key + "=" + string(top[key])
+					}
 				}
-				var id string
-				var tuple []json.RawMessage
-				if json.Unmarshal(prev[0], &id) == nil && id == r.create.EventID() {
-					return "ids", ""
+				if len(shapes) != 1 {
+					return "mixed", string(top["prev_events"]) + " / " + string(top["auth_events"])
 				}
-				if json.Unmarshal(prev[0], &tuple) == nil && len(tuple) == 2 && json.Unmarshal(tuple[0], &id) == nil && id == r.create.EventID() {
-					return "tuples", ""
+				for s := range shapes {
+					return s, ""
 				}
-				return "other", string(top["prev_events"])
 			case "build_event_id_key":
-				if _, ok := top["event_id"]; ok {
-					return "present", ""
+				raw, ok := top["event_id"]
+				if !ok {
+					return "absent", ""
 				}
-				return "absent", ""
+				var keyed string
+				if json.Unmarshal(raw, &keyed) != nil || keyed != ev.EventID() || keyed == "" {
+					return "present-but-not-the-id", "event_id=" + string(raw) + " EventID()=" + ev.EventID()
+				}
+				return "present", ""
 			case "receipt_own_format":
 				back, err := v.NewEventFromUntrustedJSON(ev.JSON())
 				if err != nil || back.Redacted() || back.EventID() != ev.EventID() {
